@@ -205,6 +205,9 @@ def main():
         pid = p['id']
         if pid in CHECKS:
             eng, tech, text, note, ref = CHECKS[pid]
+            eng = eng + '+E4'
+            tech = tech + '; exhaustive pairwise / depth-4 call-history exploration of the anchored public operations (cold vs warm, held results, result edits, in-place refills, refused calls, positional / default / list forms)'
+            text = text + ' In addition the history harness (DESIGN.md section 1, E4) explores every ordered pair and depth-4 triple of one-factor variants of the public operations this property is anchored in, and every other catalogue operation followed by one of them, with bit-equality oracles.'
             checks.append({
                 'property_id': pid,
                 'quick_cmd': f'./check {pid} --tier quick',
@@ -238,6 +241,8 @@ def main():
              'kind_free_text': 'explicit-state BFS over event histories on real lentil objects with canonical-state de-duplication and a reference model stepping in lock-step'},
             {'name': 'E3', 'path': 'mc/tlc.py', 'serves_properties': sorted(k for k, v in CHECKS.items() if 'E3' in v[0]),
              'kind_free_text': 'TLA+ model generated from the documentation tables, checked with TLC; the dumped state graph is replayed trace by trace against the implementation'},
+            {'name': 'E4', 'path': 'mc/histories.py', 'serves_properties': sorted(CHECKS),
+             'kind_free_text': 'history harness: for a catalogue of 93 public operations with one-factor argument variants, exhaustive enumeration of ordered call pairs, depth-4 triples, cross-operation pairs, result edits, in-place refills, refused calls and positional / default / list call forms on the real code, with bit-equality (cold vs warm) oracles and library state reset before every cold arm'},
         ],
         'checks': checks,
         'not_applicable': na,
